@@ -351,6 +351,17 @@ def check_order_complete(ctx):
     exits(lp.body, [])
 
 
+def strip_order(t):
+    """text of a sequence expression with the wrappers removed that only fix the order of its members (same members, same length)"""
+    import re
+    t = t.replace(' ', '')
+    while True:
+        m = re.fullmatch(r'(?:self\.domain\.canonical|sorted|list|tuple)\((.*)\)', t)
+        if not m or m.group(1).count('(') != m.group(1).count(')'):
+            return t
+        t = m.group(1)
+
+
 def all_empty_before(axes, pc):
     """a site whose marginal has leading axes `*P` is fine when it only runs with P empty (`len(P) >= 1` false)"""
     if not (len(axes) == 2 and axes[0].startswith('*')):
@@ -362,13 +373,13 @@ def all_empty_before(axes, pc):
             c, neg = c.operand, not neg
         truth = pol != neg
         if isinstance(c, ast.Compare) and len(c.ops) == 1 and isinstance(c.left, ast.Call) and U(c.left.func) == 'len' \
-                and len(c.left.args) == 1 and T(strip_seq(c.left.args[0])) == P and isinstance(c.comparators[0], ast.Constant):
+                and len(c.left.args) == 1 and strip_order(T(c.left.args[0])) == strip_order(P) and isinstance(c.comparators[0], ast.Constant):
             k, op = c.comparators[0].value, type(c.ops[0])
             nonempty = (op is ast.GtE and k == 1) or (op is ast.Gt and k == 0) or (op is ast.NotEq and k == 0)
             empty = (op is ast.Eq and k == 0) or (op is ast.Lt and k == 1)
             if (nonempty and not truth) or (empty and truth):
                 return True
-        if T(strip_seq(c)) == P and not truth:
+        if strip_order(T(c)) == strip_order(P) and not truth:
             return True
     return False
 
@@ -680,6 +691,13 @@ def check_conditioning(ctx, fi, be):
     if P is None:
         raise AnalysisError('synthetic_data: conditional marginal `self.project(P + (col,))` not found in the column loop')
     import re
+    # the conditioning SET: wrappers that only fix the order of its members (domain order, sorted, list / tuple) are looked through here; that the
+    # group keys and the axes of the marginal use the SAME sequence is judged by site-pairing
+    while True:
+        m_w = re.fullmatch(r'(?:self\.domain\.canonical|sorted|list|tuple)\((.*)\)', P.replace(' ', ''))
+        if not m_w or m_w.group(1).count('(') != m_w.group(1).count(')'):
+            break
+        P = m_w.group(1)
     Pn0 = P.replace(' ', '')
     # the list of clique sets the union ranges over, read off the (expanded) conditioning set itself - whatever the locals are called
     mm = re.fullmatch(r'(?:%s\.intersection\(|%s&)set\.union\(\*\[(\w+)for\1in(.+)if%sin\1\]\)\)?' % (re.escape(used), re.escape(used), re.escape(col)), Pn0)
